@@ -6,6 +6,7 @@ From Coq Require Import Strings.Byte.
 Require Import BS.Bytes BS.Common BS.Api BS.Layout BS.Format BS.FormatFacts BS.Spec BS.SpecStep.
 Require Import BS.FS BS.FSFacts BS.Meta BS.MetaFacts BS.Header BS.Reader BS.ReaderFacts BS.Index BS.Data BS.DataFacts BS.Seek BS.Series BS.SeriesFacts BS.ReadAllFacts BS.TotalFacts BS.ExtractFacts BS.OpenFacts BS.TornFacts BS.TornGenFacts BS.Sections BS.HistoryFacts.
 Require Import BS.RecoverFacts.
+Require Import BS.World BS.Judge BS.JudgeFacts.
 Import ListNotations.
 
 
@@ -163,3 +164,18 @@ Theorem C05_recovery_of_a_cut_encoding : forall p (l:list (N * list byte)) c, wf
     /\ recover p (firstn c (encode p l)) = Some (firstn k l, N.of_nat (length (encode p (firstn k l)))).
 Proof. exact recover_cut. Qed.
 Print Assumptions C05_recovery_of_a_cut_encoding.
+
+(* (I refines S, at the level of the public API, across crashes) every history - create a series in an empty directory, then
+   any sequence of session operations (appends accepted or refused, every kind of read, counts, accessors, with any
+   arguments), clean close-and-reopen steps and CRASHES (close; the data file loses its last kd bytes, any kd up to its whole
+   data region; the index file is left alone, removed, or cut by any number of bytes; open) - run on the model of the library
+   is ACCEPTED BY THE JUDGE at every step: the open after a crash succeeds, every later answer is the one Layer S expects for
+   exactly the completely written lines, and after every step the files of the model are byte for byte the files the judge
+   expects (the data file cut back to the intact prefix, the index rebuilt or accepted as the index of that prefix). Payload
+   sizes 0..3 under the marker-word condition nm_sec on the lines before the crash (known finding D6 outside it). *)
+Theorem C05_history_accepted_by_judge : forall (name:list byte) (p:nat) (hdr:list byte),
+  (len (params_to_text BSgen.Consts.version (N.of_nat p) ++ hdr) <= 65535)%N -> (N.of_nat p < 2^64)%N ->
+  forall cb hs, JudgeFacts.hvalid p hdr [] hs ->
+  accepted World.init_world judge_init (ONew name (N.of_nat p) hdr [] cb :: JudgeFacts.flatten name hs).
+Proof. exact history_accepted. Qed.
+Print Assumptions C05_history_accepted_by_judge.
